@@ -136,7 +136,7 @@ def random_records(rng, n_events, rep):
         for _ in range(per_schema):
             v = pyavro.random_value(rng, nodes, 1, depth=4, size=2)
             pres = scramble(rng, codec.canon_pres(nodes, 1, v, rng.choice(["named", "rust"])))
-            cmds.append({"op": "ser", "id": len(cmds), "schema": {"nodes": nodes}, "pres": pres, "slow_seq": False})
+            cmds.append({"op": "ser", "id": len(cmds), "schema": {"nodes": nodes}, "pres": pres, "slow_seq": False, "via": rng.choice(("to_datum", "to_datum_vec", "owned"))})
             sis.append(si + 1)
     obs = common.run_harness(cmds)
     events = [C02.ser_event(si, c, o) for si, c, o in zip(sis, cmds, obs)]
